@@ -22,6 +22,20 @@ TEXT = {
  'C06': ('Every create/add/try_* helper is verified to hand the closure exactly the structure bytes computed from the builder state at call time and to store '
          'the closure result with all other fields unchanged (whole-struct frame); verify/decrypt helpers are verified to pass the stored signature/tag/ciphertext '
          'first, the recomputed structure second and to return the closure result unchanged. Sequences of calls: composition of these total per-call contracts.', '4 C06'),
+ 'C02': ('ProtectedHeader::from_cbor_bstr(_nested) is verified to store exactly the received byte string next to the parsed header (prot_res: original_data == Some(wire bytes), '
+         'at every nesting level through the recursive result relations of Header/CoseSignature decoding); cbor_bstr is verified to return those bytes unchanged (and the empty string / the '
+         'encoded map for built headers); every carrier decoder/encoder and the three structure builders are verified to take the protected slot from these two functions; the expanded '
+         'builder_set_protected! setters are verified to reset original_data to None. The parsed view depends only on the Value (data-model) handed over by ciborium.', '4 C02'),
+ 'C09': ('Each of the eight array decoders is verified against an iff acceptance predicate (exact arity, protected bstr empty or exactly one well-formed header map, header map, bstr/nil payload, bstr signature/tag, '
+         'element-wise nested arrays) and a result relation (every field equals its slot, nil -> None, nested structures by the same relations). Nested arrays go through the assumed element-wise contract of '
+         'try_as_array_then_convert (iterator adapters are outside Verus); the recursive COSE_recipient edge is cut by a contract stub whose contract is re-verified against the real callee.', '4 C09'),
+ 'C13': ('read_to_value is verified against the parse model (exactly one item, ExtraneousData when bytes remain, DecodeFailed when no item parses); from_slice/to_vec/from_tagged_slice/to_tagged_vec are verified to be the '
+         'composition of parse/serialise with the Value conversions (stated through the trait-level relations); suffix/prefix rejection are lemmas over the two assumed parser properties P1 (prefix-determined) and P2 (no proper prefix parses).', '4 C13'),
+ 'C14': ('from_tagged_slice is verified to accept iff the item is Tag(Self::TAG, inner) and the untagged decoder accepts inner (same value), to_tagged_vec to emit enc(Tag(Self::TAG, value)); all six untagged decoders are verified to reject '
+         'Tag items (lemma), hence doubly tagged input is rejected. The numeric TAG constants (an enum cast Verus rejects in a const initialiser) are checked against the IANA numbers by a complete, loop-free Kani harness on the real crate.', '4 C14'),
+ 'C17': ('All 16 registries: from_i64/to_i64 are verified against spec functions generated from each macro invocation, enum laws (mutual inverse, injective) are proved, and every name is proved to carry the integer of an independent '
+         'oracle (oracle/iana.json) with no other integer registered for the 15 registries transcribed completely; the same tables are re-checked on the compiled crate over ALL i64 by complete Kani harnesses; is_private is verified to be '
+         'i < -65536; the three label decoders are verified to classify registered / private-use / unregistered integers and keep text.', '4 C17'),
 }
 checks = []
 for p in props:
@@ -34,7 +48,7 @@ for p in props:
             'thorough_cmd': 'python3 tools/check.py %s --tier thorough' % pid,
             'evidence_file': '/verif/evidence/%s.json' % pid,
             'replay_cmd_template': 'python3 tools/check.py --replay {path}',
-            'engine': 'verus',
+            'engine': 'verus+kani' if any(k.startswith('kani') for _, k in obligations.OBLIGATIONS[pid]) else 'verus',
             'level_claimed': {'category': 'proof', 'text': txt, 'design_ref': 'DESIGN.md section ' + ref},
             'level_note': TRUST,
             'technique': 'contract-based deductive verification (Verus/Z3) of the real functions, re-extracted from /repo on every run',
@@ -46,7 +60,8 @@ m = {
  'setup_cmd': 'python3 tools/setup.py',
  'hooks': {'guard': 'google_coset_verif', 'enable': 'none needed: contracts live in /verif/contracts and are merged into a mechanical re-extraction of /repo/src on every run; /repo carries no hook code',
            'baseline_off_cmd': 'cd /repo && cargo test --workspace --no-fail-fast --offline', 'source_commits': [], 'add_only': True},
- 'engines': [{'name': 'verus', 'path': '/verif/tools/check.py', 'serves_properties': sorted(claimed),
+ 'engines': [{'name': 'kani', 'path': '/verif/tools/runkani.py', 'serves_properties': sorted(p for p in claimed if any(k.startswith('kani') for _, k in obligations.OBLIGATIONS[p])), 'kind_free_text': 'Kani 0.68 / CBMC 6.11 harnesses in /verif/kani on the real crate (path dependency on /repo); complete = loop-free over full symbolic domains'},
+  {'name': 'verus', 'path': '/verif/tools/check.py', 'serves_properties': sorted(claimed),
               'kind_free_text': 'Verus 0.2026.09.13 (Z3) on a file generated from /repo/src/*/mod.rs by tools/extract.py, linked against the real ciborium rlibs'}],
  'checks': checks,
  'not_applicable': na,
